@@ -389,7 +389,7 @@ def k_track(ctx: Ctx, reg: Registry):
                 cases.append((n, bits, (bits + len(g["t"])) % 4, "L", [g], "exhaustive"))
     for c in corpus_cases("track"):
         cases.append((c["n"], c["bits"], c["phase"], c["form"], c["gates"], "corpus"))
-    for _ in range(ctx.n(500, 12000)):
+    for _ in range(ctx.n(500, 30000)):
         n = rand_n(rng)
         mode = rng.choices(["pauli", "mixed", "malformed"], [55, 30, 15])[0]
         gates = rand_gate_list(rng, n, mode)
@@ -538,7 +538,7 @@ def k_sup(ctx: Ctx, reg: Registry):
                     cases.append(((n, a, pa), (n, b, pb), "exhaustive"))
     for c in corpus_cases("sup"):
         cases.append((tuple(c["a"]), tuple(c["b"]), "corpus"))
-    for _ in range(ctx.n(400, 8000)):
+    for _ in range(ctx.n(400, 20000)):
         cases.append(rand_sup_pair(rng))
     reqs = [f"c16sup {sa[0]} {sa[1]} {sa[2]} | {sb[0]} {sb[1]} {sb[2]}" for sa, sb, _ in cases]
     resp = ctx.driver(reqs, entry=ENTRY)
@@ -720,7 +720,7 @@ def k_hist(ctx: Ctx, reg: Registry):
     hists = []
     for c in corpus_cases("hist"):
         hists.append((tuple(c["grid"]), [tuple(o) for o in c["ops"]]))
-    for _ in range(ctx.n(150, 2500)):
+    for _ in range(ctx.n(150, 6000)):
         n, ops = rand_history(rng)
         hists.append(((rng.randint(-64, 64), rng.randint(-64, 64)), ops))
     # the model needs valid object indices only as naturals; an out-of-range source is IndexError on both sides
@@ -1138,6 +1138,6 @@ def run(ctx: Ctx, replay=None) -> int:
         k_sem(ctx)
     with ctx.timed("oracle_validation"):
         broken = bool(ctx.failed_obligations or ctx.disagreements)
-        budget = (3 if ctx.quick() else 40) * (8 if broken else 1)
+        budget = (3 if ctx.quick() else 150) * (8 if broken else 1)
         oracle_search(ctx, budget, ctx.n(150, 1500) * (4 if broken else 1))
     return ctx.finish()
